@@ -107,7 +107,7 @@ Print Assumptions C11_open_after_close_fails.
 (* the variant without that clause in Open (the code before 5cc5327) does not have the property:
    Close, Open 6, Read 6 — the Read blocks for ever *)
 Theorem C11_open_after_close_refuted :
-  let '(s, tr) := run_var false true max_payload_size (init_mux [] 4 [1]) [EvClose; EvOpen 6; EvRead 6 true] in
+  let '(s, tr) := run_var false true true max_payload_size (init_mux [] 4 [1]) [EvClose; EvOpen 6; EvRead 6 true] in
   m_closed s = true /\ map snd tr = [ROk; ROk; RBlock].
 Proof. exact open_after_close_refuted. Qed.
 Print Assumptions C11_open_after_close_refuted.
@@ -126,7 +126,7 @@ Print Assumptions C11_stale_close_is_noop.
    the old handle once more, Mux.Close — the replacement is not in the map, nobody closes it, its Read blocks
    (the sibling connection 2 gets its end-of-file) *)
 Theorem C11_stale_close_unguarded_refuted :
-  let '(s, tr) := run_var true false max_payload_size (init_mux [] 4 [1; 2])
+  let '(s, tr) := run_var true false true max_payload_size (init_mux [] 4 [1; 2])
                     [EvConnClose 1; EvOpen 1; EvStaleClose 1; EvClose; EvRead 1 true; EvRead 2 true] in
   m_closed s = true /\ map snd tr = [ROk; ROk; ROk; ROk; RBlock; RErr EEOF].
 Proof. exact stale_close_unguarded_refuted. Qed.
@@ -166,16 +166,47 @@ Theorem C11_close_commutes : forall id s, do_close (conn_close_step id s) = conn
 Proof. exact close_commutes. Qed.
 Print Assumptions C11_close_commutes.
 
-(* what an end has put on the trunk is, at every moment and for every schedule and every failure point of
+(* (no_recovery: a trunk that has failed stays down; the transient case is C11_frame_sync below)
+   what an end has put on the trunk is, at every moment and for every schedule and every failure point of
    the trunk, the stream of its successful Writes followed by an initial part of at most one more Write:
    the peer's input is always of the form  firstn n (trunk ws)  assumed above *)
 Theorem C11_tx_prefix : forall rx qlen opened evs s tr,
+  no_recovery evs = true ->
   run (init_mux rx qlen opened) evs = (s, tr) ->
   prefix (trunk (ok_writes tr)) (m_tx s) /\
   (exists w, prefix (m_tx s) (trunk (ok_writes tr ++ [w]))) /\
   (m_tx_broken s = false -> m_tx s = trunk (ok_writes tr)).
 Proof. exact (tx_prefix max_payload_size). Qed.
 Print Assumptions C11_tx_prefix.
+
+(* the same with transient trunk failures (EvTrunkUp: an expired write deadline, the peer drains again) at any
+   byte offset: what an end has put on the trunk is a whole number of frames, each one a frame of a Write that
+   was attempted (its id, its chunk: never anything foreign), and a partial frame only at the very end of the
+   stream of a Mux that is closed and whose trunk is down for good.  mux.write closes the Mux when the header or
+   the payload write was partial AND when a payload write wrote nothing after its header went out
+   (MuxConsts.payload_failure_fatal_after_header, read from mux.go on every run) *)
+Theorem C11_frame_sync : forall rx qlen opened evs s tr,
+  run (init_mux rx qlen opened) evs = (s, tr) ->
+  exists fs tl, m_tx s = frames_bytes fs ++ tl /\
+    (forall f, In f fs -> In f (attempted_frames max_payload_size tr)) /\
+    (tl <> [] -> m_closed s = true /\ m_tx_broken s = true).
+Proof. exact (frame_sync max_payload_size). Qed.
+Print Assumptions C11_frame_sync.
+
+(* the code before 214cbc8 (payload error path guarded by n != 0 alone) does not have the property: the trunk takes
+   the 8 header bytes of a Write to id 1, the payload write fails with n = 0, the trunk carries on, a Write to id 2
+   follows — the Mux is open, nothing is latched, the receiver is handed bytes of id 2's header on connection 1
+   and nothing on connection 2; the machine of the theorems fails stop at that point *)
+Theorem C11_frame_sync_refuted :
+  let evs := [EvWrite 1 [5; 6; 7] (Some 8); EvTrunkUp; EvWrite 2 [9] None] in
+  let '(s, tr) := run_var true true false max_payload_size (init_mux [] 4 [1; 2]) evs in
+  m_closed s = false /\ m_tx_broken s = false /\ m_err s = None /\ map snd tr = [RErr EErr; ROk; ROk] /\
+  m_tx s = [0;0;0;1; 0;0;0;3; 0;0;0;2; 0;0;0;1; 9] /\
+  dec [1; 2] (m_tx s) 1 = [[0; 0; 0]] /\ dec [1; 2] (m_tx s) 2 = [] /\
+  let '(s', tr') := run_mp max_payload_size (init_mux [] 4 [1; 2]) evs in
+  m_closed s' = true /\ m_err s' = Some EErr /\ map snd tr' = [RErr EErr; ROk; RErr EEOF] /\ m_tx s' = [0;0;0;1; 0;0;0;3].
+Proof. exact frame_sync_refuted. Qed.
+Print Assumptions C11_frame_sync_refuted.
 
 (* listener wrapper (pkg/net/conn.go): after any history, Accept returns the connection iff it is the
    first Accept; a later one returns end-of-file if the listener has been closed and blocks otherwise *)
@@ -216,6 +247,15 @@ Example C11_example_overflow :
   m_err s = Some EErr /\ m_closed s = true /\
   map snd tr = [ROk; ROk; ROk; ROk; RErr EErr; RData [1;2;3]; RErr EErr; RData [9]; RErr EErr;
                 RErr EEOF; ROk; ROk].
+Proof. vm_compute. repeat split. Qed.
+(* cuts of one Write of 3 bytes: inside the header, exactly after it (fatal since 214cbc8), on the frame boundary,
+   and a header that fails with n = 0 followed by a trunk that carries on: the Mux lives, the stream is in step *)
+Example C11_example_cut_points :
+  payload_failure_fatal_after_header = true /\
+  map (fun k => cut_fatal true k [(1, [5;6;7])]) [0; 1; 7; 8; 9; 10] = [false; true; true; true; true; true] /\
+  map (fun k => cut_fatal false k [(1, [5;6;7])]) [0; 8; 9] = [false; false; true] /\
+  let '(s, tr) := run (init_mux [] 4 [1;2]) [EvWrite 1 [5;6;7] (Some 0); EvTrunkUp; EvWrite 2 [9] None] in
+  m_closed s = false /\ map snd tr = [RErr EErr; ROk; ROk] /\ m_tx s = [0;0;0;2; 0;0;0;1; 9].
 Proof. vm_compute. repeat split. Qed.
 (* a Write on a trunk that fails after 10 more bytes: 8 header bytes and 2 payload bytes went out *)
 Example C11_example_write_cut :
